@@ -222,6 +222,12 @@ def check_case(case, ctx):
                     and strip_late_dependencies(copy.deepcopy(proj)):
                 # listed finding; never generated by the search (see strip_late_dependencies), replay file only
                 ctx.fail('C22:process-raises:file-of-late-discovered-item-not-parsed', case, repr(rootc)[:300])
+            elif bucket == 'RuntimeError@loki/batch/transformation.py:apply_module' \
+                    and not cfg['config']['default'].get('enable_imports') and _in_unparsed_file(sel, items, seq['files']):
+                # listed finding: without enable_imports Scheduler._parse_items only completes files that hold a
+                # ProcedureItem of the graph; a selected binding/interface item elsewhere meets an incomplete Module
+                ctx.fail('C22:process-raises:non-procedure-item-in-unparsed-file', case,
+                         f'{_in_unparsed_file(sel, items, seq["files"])}: {rootc!r}'[:300])
             else:
                 ctx.fail(f'C22:process-raises:{label}:{bucket}', case, repr(rootc)[:300])
             return
@@ -418,6 +424,12 @@ def check_case(case, ctx):
             ctx.fail('C22:plan-regex-differs-from-sequence', case,
                      f'{sorted(set(names(plan_rx["calls"])) ^ set(names(seq["calls"])))[:6]}')
         ctx.count('plan-with-regex-frontend-compared')
+
+
+def _in_unparsed_file(sel, items, files):
+    """selected non-procedure items whose file holds no ProcedureItem of the graph"""
+    with_proc = {files[n] for n in items if items[n] == 'proc' and n in files}
+    return sorted(n for n in sel if items[n] != 'proc' and files.get(n) not in with_proc)
 
 
 def _parents(n):
